@@ -452,7 +452,12 @@ def steering(ctx):
             if ds:
                 ob.refute("reqch-want_cmds:%s" % tag, "the request chooser is given want_cmds although nphases > 1", ds[0].loc)
         # steerer strobes
-        cmds = [None, "choose_cmd.cmd" if nph > 1 else "choose_req.cmd", "choose_req.cmd", "refresher.cmd"]
+        st_i = v.instances_of("_Steerer")
+        if st_i and st_i[0].args and isinstance(st_i[0].args[0], ListV) and len(st_i[0].args[0].items) == 4:
+            cmds = [None] + [key(x) for x in st_i[0].args[0].items[1:]]
+        else:
+            ob.unknown("%s: steerer command list not found" % tag)
+            continue
         for i in range(nph):
             for field, tgt, inv in (("cas", "cas_n", True), ("ras", "ras_n", True), ("we", "we_n", True), ("is_read", "rddata_en", False),
                                     ("is_write", "wrdata_en", False)):
